@@ -529,11 +529,22 @@ def read_page_base() -> str:
     feeds = [n for n in ast.walk(fn) if isinstance(n, ast.Call) and ast.unparse(n.func) == pname + ".feed"]
     _need(len(feeds) == 1 and len(feeds[0].args) == 1 and ast.unparse(feeds[0].args[0]).startswith("response.content"),
           "_scan_page_links: the parser is not fed the response's content once")
-    base = ast.unparse(mk[0].args[0])
+    expr = mk[0].args[0]
+    params = {a.arg for a in fn.args.args}
+    for _ in range(4):      # a local name bound once stands for the expression it was bound to
+        if not (isinstance(expr, ast.Name) and expr.id not in params and expr.id != "response"):
+            break
+        binds = [n for n in ast.walk(fn) if isinstance(n, ast.Assign) and len(n.targets) == 1
+                 and isinstance(n.targets[0], ast.Name) and n.targets[0].id == expr.id]
+        _need(len(binds) == 1, f"_scan_page_links: the link base {expr.id!r} is not bound exactly once")
+        expr = binds[0].value
+    base = ast.unparse(expr)
     if base == "response.url":
         return "PBResponseUrl"
-    _need(not any(isinstance(n, ast.Name) and n.id == "response" for n in ast.walk(mk[0].args[0])),
-          f"_scan_page_links: link base {base!r} is derived from the response in a way that is not understood")
+    names = {n.id for n in ast.walk(expr) if isinstance(n, ast.Name)}
+    local = {n.targets[0].id for n in ast.walk(fn) if isinstance(n, ast.Assign) and len(n.targets) == 1 and isinstance(n.targets[0], ast.Name)}
+    _need("response" not in names and not ((names & local) - {"url"}),
+          f"_scan_page_links: link base {base!r} is derived from the response or from locals in a way that is not understood")
     return "PBAskedUrl"
 
 
